@@ -139,8 +139,11 @@ def scratch():
 
 
 def suite(d):
-    r = subprocess.run([PY, "-m", "pytest", "-q", "-x", "-p", "no:cacheprovider", "sievelib/tests"], cwd=d, capture_output=True,
-                       text=True, env=dict(os.environ, PYTHONDONTWRITEBYTECODE="1", PYTHONPATH=d), timeout=300)
+    try:
+        r = subprocess.run([PY, "-m", "pytest", "-q", "-x", "-p", "no:cacheprovider", "sievelib/tests"], cwd=d, capture_output=True,
+                           text=True, env=dict(os.environ, PYTHONDONTWRITEBYTECODE="1", PYTHONPATH=d), timeout=90)
+    except subprocess.TimeoutExpired:
+        return False      # the suite hangs: it notices
     return r.returncode == 0
 
 
